@@ -162,6 +162,7 @@ fn run_e1_property(id: &str, thorough: bool, ev: &mut Evidence, t0: Instant) {
         fams.push(families::fd(2, 3, a23, 3, "6 anchors (corner, trap neighbourhoods, centre)"));
         fams.push(families::fd(3, 2, a32, 3, "6 anchors (corner, trap neighbourhoods, centre)"));
         fams.push(families::f3r(&families::KINDS6, "RDErde"));
+        fams.push(families::f4w(&families::KINDS6B, "RCErce"));
     } else {
         fams.push(families::f3w(Some(&families::QUICK_ANCHORS5), &families::KINDS8, "5 windows (a1 corner, h8 corner, c3-centred, f6-centred, centre), kinds RCDErcde"));
     }
